@@ -241,3 +241,79 @@ func (g *Gen) WriteModule(module, text string) {
 		}
 	}
 }
+
+// SrcInlined is Src with every identifier that names a package-level constant (or a package-level
+// variable initialised with a basic literal) of the same file replaced by that literal: "introduce a
+// named constant for a literal" then does not change the shape a fact is matched against.
+func (g *Gen) SrcInlined(rel string, n ast.Node) string {
+	s := g.Src(n)
+	f := g.Parse(rel)
+	if f == nil {
+		return s
+	}
+	for _, d := range f.Decls {
+		gd, ok := d.(*ast.GenDecl)
+		if !ok || (gd.Tok != token.CONST && gd.Tok != token.VAR) {
+			continue
+		}
+		for _, sp := range gd.Specs {
+			vs, ok := sp.(*ast.ValueSpec)
+			if !ok {
+				continue
+			}
+			for i, name := range vs.Names {
+				if i >= len(vs.Values) {
+					continue
+				}
+				lit, ok := vs.Values[i].(*ast.BasicLit)
+				if !ok {
+					continue
+				}
+				s = replaceIdent(s, name.Name, lit.Value)
+			}
+		}
+	}
+	return s
+}
+
+func isIdentByte(b byte) bool {
+	return b == '_' || b >= '0' && b <= '9' || b >= 'a' && b <= 'z' || b >= 'A' && b <= 'Z' || b >= 0x80
+}
+
+// replaceIdent replaces whole-identifier occurrences of name (not preceded by '.', not inside a
+// string or rune literal) in white-space-free source text.
+func replaceIdent(s, name, by string) string {
+	var b strings.Builder
+	inStr := byte(0)
+	for i := 0; i < len(s); {
+		c := s[i]
+		if inStr != 0 {
+			b.WriteByte(c)
+			if c == '\\' && i+1 < len(s) && inStr != '`' {
+				b.WriteByte(s[i+1])
+				i += 2
+				continue
+			}
+			if c == inStr {
+				inStr = 0
+			}
+			i++
+			continue
+		}
+		if c == '"' || c == '\'' || c == '`' {
+			inStr = c
+			b.WriteByte(c)
+			i++
+			continue
+		}
+		if strings.HasPrefix(s[i:], name) && (i == 0 || (!isIdentByte(s[i-1]) && s[i-1] != '.')) &&
+			(i+len(name) == len(s) || !isIdentByte(s[i+len(name)])) {
+			b.WriteString(by)
+			i += len(name)
+			continue
+		}
+		b.WriteByte(c)
+		i++
+	}
+	return b.String()
+}
